@@ -48,6 +48,58 @@ func c16RandJ(r *verifh.Rng) int64 {
 	return j
 }
 
+// c16NilErr: a typed-nil error (`e != nil` holds for the interface value although the pointer in it is nil)
+type c16NilErr struct{}
+
+func (*c16NilErr) Error() string { return "typed nil" }
+
+// c16CacheOpts parses `L3,N2,L0` (WithLimit(3), WithName("n2"), WithLimit(0); N0 = WithName(""); `-` = no option)
+// into the option list handed to NewCache, in order.  memo (multi-instance sections): ONE CacheOption value per limit.
+func c16CacheOpts(spec string, memo map[int]CacheOption) []CacheOption {
+	var opts []CacheOption
+	if spec == "-" || spec == "" {
+		return opts
+	}
+	for _, tok := range strings.Split(spec, ",") {
+		switch {
+		case strings.HasPrefix(tok, "L"):
+			limit := verifh.Atoi(tok[1:])
+			opt := WithLimit(limit)
+			if memo != nil {
+				if o, ok := memo[limit]; ok {
+					opt = o
+				} else {
+					memo[limit] = opt
+				}
+			}
+			opts = append(opts, opt)
+		case strings.HasPrefix(tok, "N"):
+			name := ""
+			if tok != "N0" {
+				name = "n" + tok[1:]
+			}
+			opts = append(opts, WithName(name))
+		default:
+			panic("c16: bad cache option " + tok)
+		}
+	}
+	return opts
+}
+
+// c16StableGoroutines: the goroutine count once it has not moved for 40 polls (>= 8 ms), at most 2 s
+func c16StableGoroutines() int {
+	n, same := runtime.NumGoroutine(), 0
+	for deadline := time.Now().Add(2 * time.Second); same < 40 && time.Now().Before(deadline); {
+		time.Sleep(200 * time.Microsecond)
+		if m := runtime.NumGoroutine(); m == n {
+			same++
+		} else {
+			n, same = m, 0
+		}
+	}
+	return n
+}
+
 func c16Key(k int) string { return "k" + strconv.Itoa(k) }
 func c16KeyBack(s string) int {
 	return verifh.Atoi(strings.TrimPrefix(s, "k"))
@@ -82,16 +134,49 @@ func c16GenCache(r *verifh.Rng) []verifh.Section {
 			}
 			return c16RandJ(r)
 		}
+		// the option list NewCache gets: the limit alone, or the limit among other options - an earlier limit that
+		// is replaced, a later non-positive limit that must NOT remove it, names before / after / empty, no option
+		optS := fmt.Sprintf("L%d", limit)
+		if limit > 0 {
+			switch r.Intn(8) {
+			case 0:
+				optS = fmt.Sprintf("L%d,L%d", r.Pick(1, limit+1, limit+3, 7), limit)
+			case 1:
+				optS = fmt.Sprintf("L%d,L%d", limit, r.Pick(0, 0, -1, -9))
+			case 2:
+				optS = fmt.Sprintf("N%d,L%d", r.Intn(3), limit)
+			case 3:
+				optS = fmt.Sprintf("L%d,N%d,L%d", r.Pick(0, 1, 9), r.Intn(3), limit)
+			case 4:
+				optS = fmt.Sprintf("L%d,N%d,L%d", limit, r.Intn(3), r.Pick(0, -1))
+			}
+		} else {
+			switch r.Intn(6) {
+			case 0:
+				optS = "-"
+			case 1:
+				optS = fmt.Sprintf("N%d", r.Intn(3))
+			case 2:
+				optS = fmt.Sprintf("L%d,L%d", r.Pick(0, -1, -7), limit)
+			}
+		}
 		var ops []string
 		val := 1
 		nops := r.Range(5, verifh.Scale(70, 140))
+		// now and then a nil value (0): a stored nil is a hit, not a miss
+		value := func() int {
+			if r.Chance(1, 10) {
+				return 0
+			}
+			val++
+			return val - 1
+		}
 		for j := 0; j < nops; j++ {
 			k := r.Intn(nkeys)
 			switch x := r.Intn(100); {
 			case x < 5:
 				// Cache.Set: the configured default expiry
-				ops = append(ops, fmt.Sprintf("setd %d %d %d", k, val, jit()))
-				val++
+				ops = append(ops, fmt.Sprintf("setd %d %d %d", k, value(), jit()))
 			case x < 25:
 				e := expire * 1000000000
 				if r.Chance(1, 3) {
@@ -103,15 +188,16 @@ func c16GenCache(r *verifh.Rng) []verifh.Section {
 					// not positive (after the jitter): 1 ns is truncated to 0 by about half of the factors
 					e = r.Pick(0, 0, 1, 1, -1, -3000000000)
 				}
-				ops = append(ops, fmt.Sprintf("set %d %d %d %d", k, val, e, jit()))
-				val++
+				ops = append(ops, fmt.Sprintf("set %d %d %d %d", k, value(), e, jit()))
 			case x < 45:
 				ops = append(ops, fmt.Sprintf("get %d", k))
 			case x < 52:
 				ops = append(ops, fmt.Sprintf("del %d", k))
 			case x < 68:
-				ops = append(ops, fmt.Sprintf("take %d %d %s %d", k, val, r.PickS("ok", "ok", "ok", "fail"), jit()))
-				val++
+				// every way the loader can end: a value (also nil), an error, a typed-nil error, a panic with an error /
+				// with another value, runtime.Goexit
+				ops = append(ops, fmt.Sprintf("take %d %d %s %d", k, value(),
+					r.PickS("ok", "ok", "ok", "ok", "ok", "fail", "fail", "nilerr", "panice", "panics", "goexit"), jit()))
 			case x < 76:
 				ops = append(ops, "st")
 			default:
@@ -134,24 +220,25 @@ func c16GenCache(r *verifh.Rng) []verifh.Section {
 		for k := 0; k < nkeys; k++ {
 			ops = append(ops, fmt.Sprintf("get %d", k))
 		}
-		secs = append(secs, verifh.Section{Cfg: fmt.Sprintf("s=cache limit=%d expire=%d", limit, expire*1000000000), Ops: ops})
+		secs = append(secs, verifh.Section{Cfg: fmt.Sprintf("s=cache opts=%s expire=%d", optS, expire*1000000000), Ops: ops})
 	}
 	return secs
 }
 
 func c16StartCache(cfg verifh.Cfg) (func(op []string) string, func()) {
-	limit := cfg.Int("limit", 0)
 	expire := time.Duration(verifh.Atoi64(cfg.Str("expire", "1000000000")))
-	opt := WithLimit(limit)
-	if c16OptMemo != nil {
-		// multi-instance section: caches with the same limit are built from one CacheOption value
-		if o, ok := c16OptMemo[limit]; ok {
-			opt = o
-		} else {
-			c16OptMemo[limit] = opt
-		}
+	// `opts=` the option list; older traces carry `limit=` alone (= one WithLimit).  In a multi-instance section the
+	// caches are built from one CacheOption value per limit (c16OptMemo).
+	optS := cfg.Str("opts", "L"+strconv.Itoa(cfg.Int("limit", 0)))
+	// quiescent goroutine count before this cache exists: the count tracked since the previous cache was torn
+	// down (c16GoBase) once the stragglers are gone, else a count that has stopped moving
+	n0 := 0
+	if c16GoBase > 0 && verifh.SettleGoroutines(c16GoBase, time.Second) {
+		n0 = runtime.NumGoroutine()
+	} else {
+		n0 = c16StableGoroutines()
 	}
-	c, err := NewCache(expire, opt)
+	c, err := NewCache(expire, c16CacheOpts(optS, c16OptMemo)...)
 	if err != nil {
 		panic(err)
 	}
@@ -195,10 +282,15 @@ func c16StartCache(cfg verifh.Cfg) (func(op []string) string, func()) {
 		}
 	}
 	sync()
-	time.Sleep(time.Millisecond)
-	// quiescent goroutine count; shared, because a later instance of a multi-instance section adds its own
-	// (wheel loop, statistics loop) while the earlier ones are idle
-	c16GoBase = runtime.NumGoroutine()
+	// quiescent goroutine count from now on: NewCache added the statistics loop and its wheel's loop, the harness
+	// wheel added its loop, orig.Stop() ends the first wheel's loop (asynchronously: wait for it - a base taken
+	// while it is still alive would let `settle` return before an expiry callback has run).  Shared, because a later
+	// instance of a multi-instance section adds its own goroutines while the earlier ones are idle.
+	if verifh.SettleGoroutines(n0+2, 5*time.Second) {
+		c16GoBase = n0 + 2
+	} else {
+		c16GoBase = c16StableGoroutines()
+	}
 	settle := func() string {
 		sync()
 		if !verifh.SettleGoroutines(c16GoBase, 5*time.Second) {
@@ -248,19 +340,19 @@ func c16StartCache(cfg verifh.Cfg) (func(op []string) string, func()) {
 			exp := time.Duration(verifh.Atoi64(op[3]))
 			src.next = verifh.Atoi64(op[4])
 			ns := c.unstableExpiry.AroundDuration(exp) // probe: same source value, same float computation
-			c.SetWithExpire(c16Key(verifh.Atoi(op[1])), verifh.Atoi(op[2]), exp)
+			c.SetWithExpire(c16Key(verifh.Atoi(op[1])), c16Val(verifh.Atoi(op[2])), exp)
 			return fmt.Sprintf("ns=%d %s", int64(ns), events(-1))
 		case len(op) == 4 && op[0] == "setd":
 			src.next = verifh.Atoi64(op[3])
 			ns := c.unstableExpiry.AroundDuration(expire)
-			c.Set(c16Key(verifh.Atoi(op[1])), verifh.Atoi(op[2]))
+			c.Set(c16Key(verifh.Atoi(op[1])), c16Val(verifh.Atoi(op[2])))
 			return fmt.Sprintf("ns=%d %s", int64(ns), events(-1))
 		case len(op) == 2 && op[0] == "get":
 			v, ok := c.Get(c16Key(verifh.Atoi(op[1])))
 			if !ok {
 				return "none" + settle()
 			}
-			return strconv.Itoa(v.(int)) + settle()
+			return strconv.Itoa(c16ValBack(v)) + settle()
 		case len(op) == 2 && op[0] == "del":
 			c.Del(c16Key(verifh.Atoi(op[1])))
 			if ev := events(verifh.Atoi(op[1])); ev != "evict=- expired=-" {
@@ -271,16 +363,53 @@ func c16StartCache(cfg verifh.Cfg) (func(op []string) string, func()) {
 			src.next = verifh.Atoi64(op[4])
 			ns := c.unstableExpiry.AroundDuration(expire)
 			calls := 0
-			v, err := c.Take(c16Key(verifh.Atoi(op[1])), func() (any, error) {
+			loader := func() (any, error) {
 				calls++
-				if op[3] == "fail" {
+				switch op[3] {
+				case "ok":
+					return c16Val(verifh.Atoi(op[2])), nil
+				case "fail":
 					return nil, errors.New("load failed")
+				case "nilerr":
+					var e *c16NilErr
+					return nil, e
+				case "panice":
+					panic(errors.New("loader panics with an error"))
+				case "panics":
+					panic("loader panics")
+				case "goexit":
+					runtime.Goexit()
 				}
-				return verifh.Atoi(op[2]), nil
-			})
-			res := "err"
-			if err == nil {
-				res = strconv.Itoa(v.(int))
+				panic("c16: bad loader kind")
+			}
+			// Take runs in a goroutine of its own (runtime.Goexit must not end the test's goroutine)
+			res := "lost"
+			done := make(chan struct{})
+			go func() {
+				returned := false
+				defer close(done)
+				defer func() {
+					if p := recover(); p != nil {
+						res = "panic"
+					} else if !returned {
+						res = "goexit"
+					}
+				}()
+				v, err := c.Take(c16Key(verifh.Atoi(op[1])), loader)
+				returned = true
+				switch {
+				case err == nil:
+					res = strconv.Itoa(c16ValBack(v))
+				case v != nil:
+					res = "err-with-value"
+				default:
+					res = "err"
+				}
+			}()
+			select {
+			case <-done:
+			case <-time.After(20 * time.Second):
+				return "TIMEOUT-take"
 			}
 			return fmt.Sprintf("%s calls=%d ns=%d %s", res, calls, int64(ns), events(-1))
 		case len(op) == 1 && op[0] == "tick":
@@ -303,7 +432,14 @@ func c16StartCache(cfg verifh.Cfg) (func(op []string) string, func()) {
 		}
 		return "bad-op"
 	}
-	cfgLine := fmt.Sprintf("interval=%d slots=%d", int64(orig.interval), orig.numSlots)
+	// name: what NewCache left in cache.name and handed to newCacheStat (WithName / defaultCacheName)
+	nameS := func(n string) string {
+		if n == "" {
+			return "EMPTY"
+		}
+		return n
+	}
+	cfgLine := fmt.Sprintf("interval=%d slots=%d name=%s sname=%s", int64(orig.interval), orig.numSlots, nameS(c.name), nameS(c.stats.name))
 	first := true
 	return func(op []string) string {
 			out := step(op)
@@ -316,6 +452,6 @@ func c16StartCache(cfg verifh.Cfg) (func(op []string) string, func()) {
 		}, func() {
 			tw.Stop()
 			c16GoBase--
-			verifh.SettleGoroutines(c16GoBase, time.Second)
+			verifh.SettleGoroutines(c16GoBase, 5*time.Second)
 		}
 }
